@@ -18,7 +18,8 @@ Structure of the model
   tree in pre-order; then the section tree in pre-order): one entry per visited object;
 * `reports` keeps the non-empty ones (`update_results`);
 * some API reads *raise* instead of returning (`Entity.__init__` refuses a non-UUID id,
-  `MultiTag.positions` / `Feature.data` refuse a missing link, `LinkType(None)`); `raiseEvents`
+  `Feature.data` refuses a missing link, `LinkType(None)`; the RuntimeError of `MultiTag.positions` for a
+  missing link is caught by `check_multi_tag`); `raiseEvents`
   lists those in traversal order and `validate` fails with the first one, as the exception
   propagates out of `File.validate()`.
 -/
@@ -115,7 +116,7 @@ structure Tag where
 
 structure MultiTag where
   ent : Ent
-  /-- linked positions array (index into the block's arrays); `none` = link absent (RuntimeError) -/
+  /-- linked positions array (index into the block's arrays); `none` = link absent (`MultiTag.positions` raises) -/
   positions : Option Nat
   /-- linked extents array; `none` = `mtag.extents is None` -/
   extents : Option Nat
@@ -293,18 +294,21 @@ def secondDim : List Nat → Option Nat
   | _ :: n :: _ => some n
   | [] => none
 
-/-- `check_multi_tag` (errors only); `pos` / `ext` are the linked arrays' shapes -/
+/-- `check_multi_tag` (errors only); `pshape` / `eshape` are the linked arrays' shapes.  A missing positions link
+(`MultiTag.positions` raises RuntimeError) is caught and reported as `NoPositions`; the two checks that need the
+positions are then skipped. -/
 def checkMultiTag (arrays : List DataArray) (t : MultiTag) : List Msg :=
   let refs := refArrays arrays t.refs
   let pshape := (t.positions.bind fun k => arrays[k]?).map (·.shape)
   let eshape := (t.extents.bind fun k => arrays[k]?).map (·.shape)
   checkEntity t.ent ++
-  (if (pshape.bind firstLen) == some 0 then [.plain .NoPositions] else []) ++
+  (if pshape.isNone || (pshape.bind firstLen) == some 0 then [.plain .NoPositions] else []) ++
   (match eshape with
-   | some es => if firstLen es != some 0 && pshape != some es then [.plain .PositionsExtentsMismatch] else []
+   | some es =>
+     if pshape.isSome && firstLen es != some 0 && pshape != some es then [.plain .PositionsExtentsMismatch] else []
    | none => []) ++
   (if !t.refs.isEmpty then
-     (if refs.any (fun da => (pshape.bind secondDim) != some da.shape.length)
+     (if pshape.isSome && refs.any (fun da => (pshape.bind secondDim) != some da.shape.length)
       then [.plain .PositionsDimensionMismatch] else []) ++
      (match eshape with
       | some es =>
@@ -417,7 +421,7 @@ def shapeEvents (needSecond : Bool) (shape : List Nat) : List Err :=
 def mtagEvents (arrays : List DataArray) (t : MultiTag) : List Err :=
   ctorEvents t.ent.idUuid ++
   (match t.positions.bind (fun k => arrays[k]?) with
-   | none => [.runtimeError]
+   | none => []
    | some p => shapeEvents (!t.refs.isEmpty) p.shape) ++
   (match t.extents.bind (fun k => arrays[k]?) with
    | none => []
